@@ -93,15 +93,17 @@ theorem run_le_step (ρ : List FunDef) (f g : Nat) (ih : ∀ j s, Le (run ρ f j
     split
     · split
       · have key : ∀ u : St,
-            Le (match u.objAt il with
-                | .int j => run ρ f (.cforL il hi b) (u.setObj il (.int (j + 1)))
+            Le (match u.val il with
+                | .int j => if (u.cell il).const then ((.thrown (.evalErr .assignConst), u) : R) else run ρ f (.cforL il hi b) (u.setVal il (.int (j + 1)))
                 | _ => (.thrown (.evalErr .other), u))
-               (match u.objAt il with
-                | .int j => run ρ g (.cforL il hi b) (u.setObj il (.int (j + 1)))
+               (match u.val il with
+                | .int j => if (u.cell il).const then ((.thrown (.evalErr .assignConst), u) : R) else run ρ g (.cforL il hi b) (u.setVal il (.int (j + 1)))
                 | _ => (.thrown (.evalErr .other), u)) := by
           intro u
           split
-          · exact ih _ _
+          · split
+            · exact Le.refl _
+            · exact ih _ _
           · exact Le.refl _
         ihle ih (.node b) s
         cases oo <;> first | exact key _ | exact Le.refl _
@@ -268,7 +270,7 @@ theorem run_le_step (ρ : List FunDef) (f g : Nat) (ih : ∀ j s, Le (run ρ f j
       split
       · exact Le.refl _
       · rename_i s2 _
-        ihle ih (.cforL t.objs.length hi b) s2
+        ihle ih (.cforL (t.allocV (.int lo)).1 hi b) s2
         exact Le.refl _
     | brk => exact Le.refl _
     | cont => exact Le.refl _
